@@ -39,6 +39,7 @@ type histCfg struct {
 	symClock bool
 	reload   bool // step kind "reload": rebuild the replica from its entries with NewLog (what the loaders do)
 	deny     bool // replica 0 refuses entries signed by the last writer
+	conc     int  // LogOptions.Concurrency of the replicas (0 = default)
 	mixIO    bool // with realIO: replicas use different codec configurations
 	fork     bool // step kind "fork": replica dst is replaced by a new log built from replica src's GetEntries() (both stay live)
 	denyP0   bool // only replica 0 refuses the denyP-th payload (the others create and hold that entry)
@@ -55,7 +56,7 @@ type histCfg struct {
 
 func histParams() histCfg {
 	return histCfg{R: vx.Param("R", 2), K: vx.Param("K", 3), W: vx.Param("W", 2), sort: vx.Param("SORT", sortHash),
-		symClock: vx.Param("SYMCLOCK", 0) == 1, reload: vx.Param("RELOAD", 0) == 1, deny: vx.Param("DENY", 0) == 1, pcN: vx.Param("PCN", 1), emptyAt: vx.Param("EMPTYAT", -1), realIO: vx.Param("REALIO", 0) == 1, setID: vx.Param("SETID", 0) == 1, partial: vx.Param("PARTIAL", 0) >= 1, older: vx.Param("PARTIAL", 0) == 2, denyP: vx.Param("DENYP", -1), pcAlt: vx.Param("PCALT", 0), denyP0: vx.Param("DENYP0", 0) == 1, closing: vx.Param("CLOSE", 0) == 1, fork: vx.Param("FORKOP", 0) == 1, mixIO: vx.Param("MIXIO", 0) == 1}
+		symClock: vx.Param("SYMCLOCK", 0) == 1, reload: vx.Param("RELOAD", 0) == 1, deny: vx.Param("DENY", 0) == 1, pcN: vx.Param("PCN", 1), emptyAt: vx.Param("EMPTYAT", -1), realIO: vx.Param("REALIO", 0) == 1, setID: vx.Param("SETID", 0) == 1, partial: vx.Param("PARTIAL", 0) >= 1, older: vx.Param("PARTIAL", 0) == 2, denyP: vx.Param("DENYP", -1), pcAlt: vx.Param("PCALT", 0), denyP0: vx.Param("DENYP0", 0) == 1, closing: vx.Param("CLOSE", 0) == 1, fork: vx.Param("FORKOP", 0) == 1, mixIO: vx.Param("MIXIO", 0) == 1, conc: vx.Param("LOGCONC", 0)}
 }
 
 var pcTable = []int{0, 2, 4, 3, 8, -1, 16, 1}
@@ -121,7 +122,7 @@ func newHist(cfg histCfg) *hist {
 		h.cur = append(h.cur, r%cfg.W)
 	}
 	for r := 0; r < cfg.R; r++ {
-		o := &ipfslog.LogOptions{SortFn: h.sortFn(), IO: h.ioFor(r)}
+		o := &ipfslog.LogOptions{SortFn: h.sortFn(), IO: h.ioFor(r), Concurrency: uint(cfg.conc)}
 		if cfg.deny && r == 0 && cfg.W > 1 {
 			o.AccessController = &denyWriter{id: h.ids[cfg.W-1].ID}
 		}
